@@ -346,8 +346,12 @@ func vaultMessage(w *World, rr *core.Rand, op TxOp, v TxView, vlt *vault.Vault, 
 		return &vault.ActionExecuteMessage{Method: "", Body: cbor.Marshal("x")} // refused by Validate
 	case 13:
 		// A vault withdrawing from a vault (through the other vault's withdraw hook).
-		oa := v.Account(other.Address())
-		return msg(staking.MethodWithdraw, &staking.Withdraw{From: other.Address(), Amount: vaultAmount(rr, op, &oa.General.Balance, minXfer)})
+		src := other.Address()
+		if rr.Chance(1, 3) {
+			src = vaddr // ... or from itself (legal when its own policy lists its own address)
+		}
+		oa := v.Account(src)
+		return msg(staking.MethodWithdraw, &staking.Withdraw{From: src, Amount: vaultAmount(rr, op, &oa.General.Balance, minXfer)})
 	default:
 		// A system method as a subcall.
 		return msg(consensus.MethodMeta, &consensus.BlockMetadata{EventsRoot: make([]byte, 32)})
@@ -357,6 +361,21 @@ func vaultMessage(w *World, rr *core.Rand, op TxOp, v TxView, vlt *vault.Vault, 
 // vaultAction builds a fresh action for the vault.
 func vaultAction(w *World, rr *core.Rand, op TxOp, v TxView, vlt *vault.Vault, vs []*vault.Vault) vault.Action {
 	acct := v.Account(vlt.Address())
+	// A vault whose withdraw policy lists its own address may withdraw from itself: aim at it.
+	if as, err := vaultState.NewImmutableState(v.Tree()).AddressState(context.Background(), vlt.Address(), vlt.Address()); err == nil && as != nil && !as.WithdrawPolicy.LimitAmount.IsZero() {
+		if rr.Chance(1, 2) {
+			amt := resolveAmount(op.Amt, &as.WithdrawPolicy.LimitAmount, 1)
+			if rr.Bool() && acct.General.Balance.Cmp(&amt) < 0 {
+				amt = *acct.General.Balance.Clone()
+			}
+			return vault.Action{ExecuteMessage: &vault.ActionExecuteMessage{Method: staking.MethodWithdraw, Body: cbor.Marshal(&staking.Withdraw{From: vlt.Address(), Amount: amt})}}
+		}
+	} else if rr.Chance(1, 10) {
+		return vault.Action{UpdateWithdrawPolicy: &vault.ActionUpdateWithdrawPolicy{
+			Address: vlt.Address(),
+			Policy:  vault.WithdrawPolicy{LimitAmount: q(uint64(20 + rr.Intn(2000))), LimitInterval: []uint64{1, 5, 50, 1 << 40}[rr.Intn(4)]},
+		}}
+	}
 	switch rr.Pick([]int{1, 2, 5, 2, 14, 1}) {
 	case 0:
 		return vault.Action{Suspend: &vault.ActionSuspend{}}
@@ -366,6 +385,9 @@ func vaultAction(w *World, rr *core.Rand, op TxOp, v TxView, vlt *vault.Vault, v
 		addr := w.Addr(op.To)
 		if rr.Chance(1, 8) {
 			addr = vs[rr.Intn(len(vs))].Address() // a vault may withdraw from a vault
+			if rr.Bool() {
+				addr = vlt.Address() // ... including from itself
+			}
 		}
 		limit := resolveAmount(op.Amt, &acct.General.Balance, 1)
 		switch rr.Intn(6) {
